@@ -194,7 +194,7 @@ func (sessionStream) Generate(rng *rand.Rand, n int, thorough bool) []Case {
 			if strings.HasPrefix(mode, "lock") {
 				switch sessBadKinds[rng.Intn(len(sessBadKinds))] {
 				case "unsupported":
-					tag := []int{14, 12, 16, 5, 9, 11, 13, 25}[rng.Intn(8)]
+					tag := []int{14, 12, 16, 5, 9, 11, 13, 25, 256, 258, 512, 65538, 1<<32 + 2}[rng.Intn(13)]
 					tail = Seq(Int(2, uid), C(1, tag, Oct("cn=x"))).Ser()
 				case "bindv2":
 					tail = Seq(Int(2, uid), C(1, 0, Int(2, 2), Oct("cn=x"), P(2, 0, []byte("pw")))).Ser()
